@@ -1,6 +1,7 @@
 package sctp
 
 import (
+	"encoding/binary"
 	"bytes"
 	"fmt"
 	"reflect"
@@ -396,6 +397,82 @@ func c12Oversize(j *Job) {
 	}
 }
 
+// c12Position: the decoder's verdict on the bytes of one chunk - accepted or refused, and what it
+// decodes to - is the same whether the chunk is alone in the packet, first or last.  Raw chunks:
+// every sample as emitted, every sample that has padding with non-zero padding bytes, and
+// bare headers whose length field is smaller than the header itself.
+func c12Position(j *Job, standalone [][]byte, names []string) {
+	hdr := func() []byte {
+		raw, _ := (&packet{sourcePort: 5000, destinationPort: 5000, verificationTag: 7}).marshal(false)
+		return raw[:packetHeaderSize]
+	}
+	type verdict struct {
+		ok  bool
+		enc string
+		n   int
+	}
+	decode := func(chunks []byte, at int) verdict {
+		pk := &packet{}
+		raw := append(hdr(), chunks...)
+		binary.LittleEndian.PutUint32(raw[8:], generatePacketChecksum(raw))
+		if err := pk.unmarshal(true, raw); err != nil {
+			return verdict{}
+		}
+		v := verdict{ok: true, n: len(pk.chunks)}
+		k := at
+		if at < 0 {
+			k = len(pk.chunks) - 1
+		}
+		if k < len(pk.chunks) {
+			b, _ := pk.chunks[k].marshal()
+			v.enc = fmt.Sprintf("%x", b)
+		}
+		return v
+	}
+	short := []byte{byte(ctCookieAck), 0, 0, 4}
+	var long []byte
+	for len(long) < 65532 {
+		long = append(long, byte(ctShutdownAck), 0, 0, 4)
+	}
+	try := func(name string, r []byte, fillers ...[]byte) {
+		j.Stats.Steps++
+		alone := decode(r, 0)
+		for fi, f := range fillers {
+			first := decode(append(append([]byte{}, r...), f...), 0)
+			last := decode(append(append([]byte{}, f...), r...), -1)
+			nf := len(f) / 4
+			switch {
+			case first.ok != alone.ok || last.ok != alone.ok:
+				j.failSeq("codec.position", "position/"+name, fmt.Sprintf("chunk %x: alone accepted=%v, followed by %d other chunk(s) accepted=%v, preceded by them accepted=%v", r[:min(len(r), 24)], alone.ok, nf, first.ok, last.ok), nil)
+				return
+			case alone.ok && (first.enc != alone.enc || last.enc != alone.enc || first.n != alone.n+nf || last.n != alone.n+nf):
+				j.failSeq("codec.position", "position/"+name, fmt.Sprintf("chunk %x decodes differently by position (filler %d): alone %s (%d chunks), first %s (%d), last %s (%d)", r[:min(len(r), 24)], fi, alone.enc, alone.n, first.enc, first.n, last.enc, last.n), nil)
+				return
+			}
+		}
+	}
+	for i, r := range standalone {
+		if r == nil || !j.mine(i) {
+			continue
+		}
+		if t := chunkType(r[0]); t == ctInit || t == ctInitAck || t == ctShutdownComplete {
+			continue // may not be bundled at all: a rule about packets, not about the chunk's bytes
+		}
+		try(names[i]+"/as-emitted", r, short)
+		l := int(r[2])<<8 | int(r[3])
+		if l < len(r) && l >= 4 {
+			q := append([]byte{}, r...)
+			for k := l; k < len(q); k++ {
+				q[k] = 0xde
+			}
+			try(names[i]+"/padding-nonzero", q, short)
+		}
+		for l := 0; l < 4; l++ {
+			try(fmt.Sprintf("%s/length%d", names[i], l), []byte{r[0], r[1], 0, byte(l)}, short, long, append(append([]byte{}, long...), short...))
+		}
+	}
+}
+
 func propC12(j *Job) {
 	c12Oversize(j)
 	samples := codecSamples()
@@ -441,6 +518,11 @@ func propC12(j *Job) {
 			j.failSeq("codec.reencode", "single/"+s.name, fmt.Sprintf("decode+re-encode not stable: err=%v\n %x\n %x", err, raw, raw2), nil)
 		}
 	}
+	names := make([]string, len(samples))
+	for i := range samples {
+		names[i] = samples[i].name
+	}
+	c12Position(j, standalone, names)
 	// (ii) bundles: all ordered pairs (sharded by first element), triples over the core set when thorough
 	checkBundle := func(idx []int) {
 		var cs []chunk
